@@ -104,7 +104,7 @@ def gen_soil(rng, profile, zmax=2.3):
                 wp = round(rng.uniform(0.04, 0.32), 3)
                 fc = round(wp + rng.uniform(0.06, 0.22), 3)
                 sat = round(fc + rng.uniform(0.01, 0.2), 3)
-                ksat = rng.choice([2, 15, 35, 100, 225, 500, 1200, 3000])
+                ksat = rng.choice([0.5, 1, 2, 5, 15, 35, 100, 225, 500, 1200, 3000])
                 layers.append(["hyd", thick, wp, fc, sat, ksat, pen])
             else:
                 sand = rng.randint(5, 85)
@@ -274,6 +274,12 @@ def gen_gw(rng, profile, spec):
         deep = rng.choice([3.0, 5.5, 8.0, 12.0])
         flip = rng.random() < 0.5
         vals = [round((shallow if (i % 2 == 0) != flip else deep) + rng.uniform(0, 0.2), 2) for i in range(len(offs))]
+    if method == "Variable" and len(dates) > 2 and rng.random() < _p(profile, "gw_unordered_p", 0.3):
+        # the observations are (date, depth) pairs: listing them out of chronological order states the same table
+        order = list(range(len(dates)))
+        rng.shuffle(order)
+        dates = [dates[i] for i in order]
+        vals = [vals[i] for i in order]
     return {"water_table": "Y", "method": method, "dates": dates, "values": vals}
 
 
